@@ -66,6 +66,28 @@ func installSyncMapStubs(t *StubTable) {
 		}
 		return nil
 	}
+	// github.com/alphadose/haxmap (lock-free map built on unsafe/atomics): same table
+	const hm = "(*github.com/alphadose/haxmap.Map[K, V])."
+	t.Native[hm+"Set"] = t.Native["(*sync.Map).Store"]
+	t.Native[hm+"Del"] = func(i *interpreter, caller *frame, fn *ssa.Function, args []value) value {
+		m := i.syncMapOf(args[0])
+		for _, k := range args[1].([]value) {
+			if j := find(m, k); j >= 0 {
+				*m = append((*m)[:j], (*m)[j+1:]...)
+			}
+		}
+		return nil
+	}
+	t.Native[hm+"Len"] = func(i *interpreter, caller *frame, fn *ssa.Function, args []value) value {
+		return uintptr(len(*i.syncMapOf(args[0])))
+	}
+	t.Native[hm+"Get"] = func(i *interpreter, caller *frame, fn *ssa.Function, args []value) value {
+		m := i.syncMapOf(args[0])
+		if j := find(m, args[1]); j >= 0 {
+			return tuple{(*m)[j].v, true}
+		}
+		return tuple{zero(fn.Signature.Results().At(0).Type()), false}
+	}
 	t.Native["(*sync.Map).Range"] = func(i *interpreter, caller *frame, fn *ssa.Function, args []value) value {
 		m := i.syncMapOf(args[0])
 		snapshot := append([]smEntry{}, (*m)...)
